@@ -133,7 +133,7 @@ def worker_main(check, tier, seed, shard, nshards, out_path):
             r = judge_guarded(check, case)
             n += 1
             for k, v in (r.get('cnt') or {}).items():
-                counters[k] = counters.get(k, 0) + v
+                counters[k] = max(counters.get(k, 0), v) if k.startswith('max_') else counters.get(k, 0) + v
             if r.get('harness_error'):
                 if len(herr) < 3:
                     herr.append({'case': case, 'error': r['harness_error']})
@@ -238,7 +238,7 @@ def run_check(check, tier, seed, jobs=None, only_shard=None):
     for r in sorted(results, key=lambda r: r['shard']):
         evaluations += r['evaluations']
         for k, v in r['counters'].items():
-            counters[k] = counters.get(k, 0) + v
+            counters[k] = max(counters.get(k, 0), v) if k.startswith('max_') else counters.get(k, 0) + v
         hashes.update(r['hashes'])
         viols += r['violations']
         if len(samples) < 4:
